@@ -550,6 +550,177 @@ theorem errorsOK_model_full (errs : List (Path × Viol)) (o : Opts) (single : Bo
     exact validateFull_some_nonempty _ _ _ r hr
   · exact full_sorted errs o
 
+/-! ## 5c. several strategies (`WithRunAll`) and the interface strategy -/
+
+/-- the interface strategy alone: what `Validate()` returned, cut to the maximum and sorted -/
+theorem interface_capped (errs : List FieldErr) (o : Opts) :
+    (fieldsOf (coerce errs o)).length ≤ o.maxErrors ∨ (fieldsOf (coerce errs o)).length = errs.length := by
+  rw [(coerce_fields errs o).length_eq]
+  by_cases h : o.maxErrors > 0 ∧ errs.length > o.maxErrors
+  · rw [if_pos h]; exact Or.inl (List.length_take_le _ _)
+  · rw [if_neg h]; exact Or.inr rfl
+
+/-- **capped** — with several strategies the *combined* list stays within the maximum
+    (after the repair of K05g), whatever the strategies returned -/
+theorem runall_capped (parts : List (Option Result)) (o : Opts) (hm : o.maxErrors > 0) :
+    (fieldsOf (validateAll parts o)).length ≤ o.maxErrors := by
+  unfold validateAll
+  rw [validateAll_eq_wrap, (wrap_fields _ _).length_eq]
+  exact allLoop_capped o hm parts [] false (by simpa using hm)
+
+theorem runall_sound (parts : List (Option Result)) (o : Opts) (e : FieldErr)
+    (he : e ∈ fieldsOf (validateAll parts o)) : ∃ r, some r ∈ parts ∧ e ∈ r.fields := by
+  unfold validateAll at he
+  rw [validateAll_eq_wrap] at he
+  rcases allLoop_sound true o parts [] false e ((wrap_fields _ _).mem_iff.mp he) with h | h
+  · simp at h
+  · exact h
+
+theorem runall_sorted (parts : List (Option Result)) (o : Opts) :
+    (fieldsOf (validateAll parts o)).Pairwise (fun a b => errLe a b = true) := by
+  unfold validateAll; rw [validateAll_eq_wrap]; exact wrap_sorted _ _
+
+/-- K05g, as shipped: each strategy capped only its own result — two errors from `Validate()` and
+    three from the tags with `maxErrors = 3` gave five -/
+theorem runall_asis_witness :
+    let e : Nat → FieldErr := fun i => ⟨[Char.ofNat (97 + i)], [], false⟩
+    let parts : List (Option Result) := [some ⟨[e 0, e 1], false⟩, some ⟨[e 2, e 3, e 4], true⟩]
+    (allLoop false ⟨3, 0, []⟩ parts [] false).fields.length = 5 ∧
+    (allLoop true ⟨3, 0, []⟩ parts [] false).fields.length = 3 := by
+  decide
+
+/-- **all strategies, model ⊨ oracle**: the interface errors (never covered by the redactor — they
+    carry no value) followed by the tag errors, through `validateAll` -/
+theorem errorsOK_model_runall (iface : List FieldErr) (errs : List (Path × Viol)) (o : Opts) (single : Bool)
+    (hi : ∀ e ∈ iface, e.hidden = false ∧ e.path ∉ o.redacted) :
+    errorsOK ((iface.map fun e => ⟨e.path, e.code, []⟩) ++
+              (errs.map fun pv => ⟨pv.1, tagPrefix ++ pv.2.tag, pv.2.shows⟩)) o single
+      (validateAll [coerce iface o, validateFull errs o] o) = true := by
+  -- facts about the two parts
+  have hparts : ∀ r, some r ∈ [coerce iface o, validateFull errs o] → r.truncated = true →
+      o.maxErrors > 0 ∧ r.fields.length ≥ o.maxErrors := by
+    intro r hr ht
+    rcases List.mem_cons.mp hr with h0 | h0
+    · have h1 : truncOf (coerce iface o) = true := by rw [← h0]; exact ht
+      rw [coerce_trunc] at h1
+      have h1 := of_decide_eq_true h1
+      refine ⟨h1.1, ?_⟩
+      have h2 : r.fields = fieldsOf (coerce iface o) := by rw [← h0]; rfl
+      rw [h2, (coerce_fields iface o).length_eq, if_pos h1, List.length_take]
+      omega
+    · rcases List.mem_cons.mp h0 with h0 | h0
+      · have h1 : truncOf (validateFull errs o) = true := by rw [← h0]; exact ht
+        have h2 : r.fields = fieldsOf (validateFull errs o) := by rw [← h0]; rfl
+        rw [h2]; exact full_truncated_only_when_full errs o h1
+      · simp at h0
+  have hwrap : validateAll [coerce iface o, validateFull errs o] o =
+      wrap (allLoop true o [coerce iface o, validateFull errs o] [] false).fields
+           (allLoop true o [coerce iface o, validateFull errs o] [] false).truncated := by
+    unfold validateAll; exact validateAll_eq_wrap _ _ _
+  have htr : truncOf (validateAll [coerce iface o, validateFull errs o] o) =
+      (allLoop true o [coerce iface o, validateFull errs o] [] false).truncated := by
+    rw [hwrap]
+    apply wrap_trunc
+    intro ht he
+    have := allLoop_trunc o _ [] hparts ht
+    rw [he] at this
+    simp at this
+    omega
+  have hmem : ∀ e, e ∈ fieldsOf (validateAll [coerce iface o, validateFull errs o] o) ↔
+      e ∈ (allLoop true o [coerce iface o, validateFull errs o] [] false).fields := by
+    intro e; rw [hwrap]; exact (wrap_fields _ _).mem_iff
+  -- membership in a part
+  have hpart : ∀ r e, some r ∈ [coerce iface o, validateFull errs o] → e ∈ r.fields →
+      (e ∈ iface) ∨ (∃ pv ∈ errs, e = mkErr o pv.1 pv.2) := by
+    intro r e hr he
+    rcases List.mem_cons.mp hr with h0 | h0
+    · left
+      have h2 : e ∈ fieldsOf (coerce iface o) := by rw [← h0]; exact he
+      have := (coerce_fields iface o).mem_iff.mp h2
+      by_cases h : o.maxErrors > 0 ∧ iface.length > o.maxErrors
+      · rw [if_pos h] at this; exact List.mem_of_mem_take this
+      · rw [if_neg h] at this; exact this
+    · rcases List.mem_cons.mp h0 with h0 | h0
+      · right
+        have h2 : e ∈ fieldsOf (validateFull errs o) := by rw [← h0]; exact he
+        exact full_sound errs o e h2
+      · simp at h0
+  apply lemma_errorsOK_of
+  · intro e he
+    obtain ⟨r, hr, her⟩ := runall_sound _ o e he
+    rcases hpart r e hr her with h1 | ⟨pv, hpv, rfl⟩
+    · refine ⟨⟨e.path, e.code, []⟩, List.mem_append_left _ (List.mem_map.mpr ⟨e, h1, rfl⟩), rfl, rfl, ?_⟩
+      intro _
+      exact ⟨(hi e h1).2, by simp⟩
+    · refine ⟨⟨pv.1, tagPrefix ++ pv.2.tag, pv.2.shows⟩,
+        List.mem_append_right _ (List.mem_map.mpr ⟨pv, hpv, rfl⟩), rfl, rfl, ?_⟩
+      intro hh
+      simp only [mkErr, Bool.or_eq_false_iff, List.any_eq_false, List.contains_iff_mem] at hh
+      refine ⟨by simpa [mkErr] using hh.1, ?_⟩
+      rintro ⟨q, hq, hqr⟩
+      exact hh.2 q hq hqr
+  · intro ht w hw
+    rw [htr] at ht
+    -- not truncated: the loop ran through, and no part was truncated on its own
+    have hcomplete := allLoop_complete true o [coerce iface o, validateFull errs o] [] false ht
+    have hpt : ∀ r, some r ∈ [coerce iface o, validateFull errs o] → r.truncated = false := by
+      intro r hr
+      cases hb : r.truncated with
+      | false => rfl
+      | true =>
+        -- a truncated part fills the list, which stops the loop and sets Truncated
+        have := allLoop_part_truncated true o _ [] false r hr (hparts r hr hb)
+        rw [this] at ht
+        exact absurd ht (by simp)
+    rcases List.mem_append.mp hw with h1 | h1
+    · obtain ⟨e, he, rfl⟩ := List.mem_map.mp h1
+      refine ⟨e, ?_, rfl, rfl⟩
+      rw [hmem]
+      obtain ⟨r1, hc⟩ := coerce_isSome iface o (List.ne_nil_of_mem he)
+      have hr1 : some r1 ∈ [coerce iface o, validateFull errs o] := by rw [hc]; simp
+      have hnt := hpt r1 hr1
+      apply hcomplete e
+      refine Or.inr ⟨r1, hr1, ?_⟩
+      have h2 : r1.fields = fieldsOf (coerce iface o) := by rw [hc]; rfl
+      rw [h2]
+      apply (coerce_fields iface o).mem_iff.mpr
+      have h3 : truncOf (coerce iface o) = false := by rw [hc]; exact hnt
+      rw [coerce_trunc] at h3
+      have h3 := of_decide_eq_false h3
+      rw [if_neg h3]; exact he
+    · obtain ⟨pv, hpv, rfl⟩ := List.mem_map.mp h1
+      refine ⟨mkErr o pv.1 pv.2, ?_, rfl, rfl⟩
+      rw [hmem]
+      -- the tags part is not nil (it has at least this error once it is known untruncated) …
+      have hne : ∃ r2, validateFull errs o = some r2 := by
+        rcases hopt : validateFull errs o with _ | r2
+        · -- nil means: no errors at all, and then it is not truncated, hence complete — contradiction
+          have hcomp := full_complete errs o (by rw [hopt]; rfl) pv hpv
+          rw [hopt] at hcomp
+          simp [fieldsOf] at hcomp
+        · exact ⟨r2, rfl⟩
+      obtain ⟨r2, hf⟩ := hne
+      have hr2 : some r2 ∈ [coerce iface o, validateFull errs o] := by rw [hf]; simp
+      have hnt := hpt r2 hr2
+      apply hcomplete _
+      refine Or.inr ⟨r2, hr2, ?_⟩
+      have h2 : r2.fields = fieldsOf (validateFull errs o) := by rw [hf]; rfl
+      rw [h2]
+      apply full_complete errs o _ pv hpv
+      rw [hf]; exact hnt
+  · intro hm _
+    exact runall_capped _ o hm
+  · intro ht
+    rw [htr] at ht
+    have := allLoop_trunc o _ [] hparts ht
+    refine ⟨this.1, ?_⟩
+    rw [hwrap, (wrap_fields _ _).length_eq]
+    exact this.2
+  · intro r hr
+    rw [hwrap] at hr
+    exact wrap_some_nonempty _ _ r hr
+  · exact runall_sorted _ o
+
 /-! ## 6. the behaviour as shipped (witnesses of the repaired findings) -/
 
 /-- K05c: `Tags []string validate:"min=2"` with `{"tags":["a","b"]}` — the element `tags.0` has no
